@@ -3,6 +3,7 @@ package main
 // Symbolic evaluation of Go expressions over the typed AST.
 
 import (
+	"strings"
 	"fmt"
 	"go/ast"
 	"go/constant"
@@ -381,6 +382,7 @@ func (fc *FnCtx) addrOf(st *State, e ast.Expr) Val {
 			n := sym(fmt.Sprintf("addr$%s$%d", o.Name(), o.Pos()))
 			fc.declareOnce(n, fmt.Sprintf("(declare-fun %s () Int)", n))
 			fc.declareOnce(n+"nz", fmt.Sprintf("(assert (not (= %s 0)))", n))
+			fc.ghostDefaults(st, n, o.Type())
 			fc.dropped["address-of local "+o.Name()+" (abstract address)"] = true
 			return Val{T: n, Ty: types.NewPointer(o.Type())}
 		}
@@ -787,4 +789,33 @@ func (fc *FnCtx) tableRead(st *State, x *ast.IndexExpr) (Val, bool) {
 	val := fc.assignConvSpec(env.eval(tb.Value), at.Elem())
 	fc.externsUsed["constant table "+v.Name()+" ("+tb.Text+"): established by init (proved), never written elsewhere (frame obligations); in-range index conversion is value preserving"] = true
 	return val, true
+}
+
+// ghostDefaults: the ghost fields of a zero-initialised local object (whose address is being taken for the
+// first time) have their declared default values.
+func (fc *FnCtx) ghostDefaults(st *State, addr string, t types.Type) {
+	n, ok := t.(*types.Named)
+	if !ok || n.Obj().Pkg() == nil || fc.declared["gd$"+addr] {
+		return
+	}
+	fc.declared["gd$"+addr] = true
+	prefix := n.Obj().Pkg().Path() + "." + n.Obj().Name() + "."
+	for _, cs := range []*ContractSet{fc.cs, fc.eng.externs} {
+		for k, def := range cs.GhostDefault {
+			if !strings.HasPrefix(k, prefix) {
+				continue
+			}
+			fname := strings.TrimPrefix(k, prefix)
+			gt := fc.resolveType(cs.GhostFlds[k], n.Obj().Pkg())
+			key := fc.fieldKey(t, fname)
+			arr := fc.heapGet(st, key, fmt.Sprintf("(Array Int %s)", fc.sortOf(gt)))
+			e, err := ParseSpec(def)
+			if err != nil {
+				fc.fail(token.NoPos, "ghost default: %v", err)
+			}
+			env := &SpecEnv{fc: fc, cur: st, old: st, bound: map[string]Val{}, home: cs, homePkg: n.Obj().Pkg()}
+			v := fc.assignConvSpec(env.eval(e), gt)
+			fc.assume(st, app("=", app("select", arr, addr), v.T))
+		}
+	}
 }
